@@ -1,1 +1,287 @@
-// placeholder
+// ======================================================================================
+// units/C08/paged_load.rs — Memory::load under contract, with the lemmas that read a value's
+// bytes off the cell map ("window" of a stored value, byte-by-byte accumulation of the fallback).
+// ======================================================================================
+
+/// le-bytes relation that makes lv the window [off, off + |lv|) of v in endianness e:
+/// lv's little-endian byte j is v's little-endian byte j + k, where k is off (little endian) or
+/// |v| - off - |lv| (big endian: address order is the reverse of significance order)
+pub proof fn lemma_window<V: Value>(e: Endian, v: V, lv: V, off: int, k: int)
+    requires
+        v.vwf(), lv.vwf(),
+        0 <= off, off + vlen(lv) <= vlen(v),
+        e is Little ==> k == off,
+        e is Big ==> k == vlen(v) - off - vlen(lv),
+        forall|j: int| 0 <= j < vlen(lv) ==> #[trigger] lv.le_bytes()[j] == v.le_bytes()[j + k],
+    ensures window(e, v, lv, off),
+{
+    v.lemma_value_laws();
+    lv.lemma_value_laws();
+    let m = vlen(lv) as int;
+    assert forall|i: int| 0 <= i < vlen(lv) implies #[trigger] vbyte(e, lv, i) == vbyte(e, v, off + i) by {
+        match e {
+            Endian::Little => { assert(lv.le_bytes()[i] == v.le_bytes()[i + k]); },
+            Endian::Big => { assert(lv.le_bytes()[m - 1 - i] == v.le_bytes()[m - 1 - i + k]); },
+        }
+    }
+}
+
+/// a window of the value stored at b, starting at address, reads the memory's own bytes there
+pub proof fn lemma_window_reads<V: Value>(e: Endian, c: Cells<V>, bk: Option<SecMap>, b: u64, address: u64, lv: V)
+    requires
+        inv_val(c, b), is_val(c, b), b <= address,
+        window(e, val_at(c, b), lv, address - b),
+        cells_cov_on(c, address as int, address + vlen(lv)),
+    ensures reads(e, c, bk, address, lv),
+{
+    let v = val_at(c, b);
+    let off = address - b;
+    assert forall|i: int| 0 <= i < vlen(lv) implies #[trigger] full_at(e, c, bk, address + i) == Some(vbyte(e, lv, i)) by {
+        let x = (address + i) as u64;
+        assert(vbyte(e, lv, i) == vbyte(e, v, off + i));
+        if x != b {
+            assert(inv_cov(c, b, x));
+        }
+    }
+}
+
+/// a single byte taken from the backing where the memory holds no cell
+pub proof fn lemma_backing_reads<V: Value>(e: Endian, c: Cells<V>, bk: Option<SecMap>, address: u64, lv: V, b: u8)
+    requires
+        !c.contains_key(address), bk_at(bk, address as int) == Some(b),
+        val_ok(lv), lv.vbits() == 8, lv.le_bytes() == seq![b],
+    ensures reads(e, c, bk, address, lv),
+{
+    assert forall|i: int| 0 <= i < vlen(lv) implies #[trigger] full_at(e, c, bk, address + i) == Some(vbyte(e, lv, i)) by {
+        assert(i == 0);
+        assert(lv.le_bytes()[0] == b);
+    }
+}
+
+/// a present byte lies below the last address 2^64 - 1 (no cell and no section reaches it)
+pub proof fn lemma_present_below_max<V: Value>(e: Endian, c: Cells<V>, bk: Option<SecMap>, x: int)
+    requires
+        cells_base(c),
+        bk matches Some(s) ==> crate::memory::backing::sections_wf(s),
+        full_at(e, c, bk, x) is Some,
+    ensures 0 <= x < u64::MAX,
+{
+    if own_at(e, c, x as u64) is Some {
+        let xu = x as u64;
+        assert(inv_val(c, xu));
+        assert(inv_ref(c, xu));
+        if c[xu] is Backref {
+            assert(inv_val(c, c[xu]->Backref_0));
+        }
+    } else {
+        crate::memory::backing::lemma_vw_range(bk->Some_0, x);
+    }
+}
+
+/// address offset of little-endian byte j of an n-byte value
+pub open spec fn apos(e: Endian, n: int, j: int) -> int {
+    match e { Endian::Little => j, Endian::Big => n - 1 - j }
+}
+
+/// r accumulates the first k bytes of [address, address + n): the others are still zero
+pub open spec fn acc<V: Value>(e: Endian, c: Cells<V>, bk: Option<SecMap>, address: u64, n: int, r: V, k: int) -> bool {
+    forall|j: int| 0 <= j < n ==> #[trigger] r.le_bytes()[j] == (
+        if apos(e, n, j) < k { full_at(e, c, bk, address + apos(e, n, j)).unwrap() } else { 0u8 })
+}
+
+/// one round of the single-byte fallback: zero-extend the byte, shift it into place, or it in
+pub proof fn lemma_acc_step<V: Value>(e: Endian, c: Cells<V>, bk: Option<SecMap>, address: u64, n: int, k: int,
+    old_r: Option<V>, b8: V, z: V, s: V, new_r: V)
+    requires
+        0 <= k < n,
+        val_ok(b8), b8.vbits() == 8, reads(e, c, bk, (address + k) as u64, b8), address + k <= u64::MAX,
+        z.vwf(), z.vbits() == 8 * n, z.le_bytes() == zext_bytes(b8.le_bytes(), n as nat),
+        s.vwf(), s.vbits() == 8 * n, s.le_bytes() == shl_bytes(z.le_bytes(), apos(e, n, k) as nat),
+        new_r.vwf(), new_r.vbits() == 8 * n,
+        old_r is None ==> k == 0 && new_r == s,
+        old_r matches Some(r) ==> r.vwf() && r.vbits() == 8 * n && acc(e, c, bk, address, n, r, k) && or_bytes_ok(r.le_bytes(), s.le_bytes(), new_r.le_bytes()),
+    ensures acc(e, c, bk, address, n, new_r, k + 1),
+{
+    b8.lemma_value_laws();
+    z.lemma_value_laws();
+    s.lemma_value_laws();
+    new_r.lemma_value_laws();
+    let p = apos(e, n, k);
+    let byte = b8.le_bytes()[0];
+    assert(full_at(e, c, bk, (address + k) as u64 + 0) == Some(vbyte(e, b8, 0)));
+    assert(vbyte(e, b8, 0) == byte);
+    assert(z.le_bytes()[0] == byte);
+    assert forall|j: int| 0 <= j < n implies #[trigger] s.le_bytes()[j] == (if j == p { byte } else { 0u8 }) by {
+        if j >= p { assert(z.le_bytes()[j - p] == (if j - p < 1 { b8.le_bytes()[j - p] } else { 0u8 })); }
+    }
+    assert forall|j: int| 0 <= j < n implies #[trigger] new_r.le_bytes()[j] == (
+        if apos(e, n, j) < k + 1 { full_at(e, c, bk, address + apos(e, n, j)).unwrap() } else { 0u8 }) by {
+        assert(apos(e, n, j) == k <==> j == p);
+        match old_r {
+            Some(r) => {
+                r.lemma_value_laws();
+                assert(r.le_bytes()[j] == (if apos(e, n, j) < k { full_at(e, c, bk, address + apos(e, n, j)).unwrap() } else { 0u8 }));
+                assert(s.le_bytes()[j] == (if j == p { byte } else { 0u8 }));
+            },
+            None => {
+                assert(s.le_bytes()[j] == (if j == p { byte } else { 0u8 }));
+            },
+        }
+    }
+}
+
+/// all n bytes accumulated: the value reads [address, address + n)
+pub proof fn lemma_acc_done<V: Value>(e: Endian, c: Cells<V>, bk: Option<SecMap>, address: u64, n: int, r: V)
+    requires
+        r.vwf(), r.vbits() == 8 * n, n >= 1,
+        acc(e, c, bk, address, n, r, n),
+        forall|i: int| 0 <= i < n ==> (#[trigger] full_at(e, c, bk, address + i)) is Some,
+    ensures reads(e, c, bk, address, r), all_present(e, c, bk, address, n as nat),
+{
+    r.lemma_value_laws();
+    assert forall|i: int| 0 <= i < vlen(r) implies #[trigger] full_at(e, c, bk, address + i) == Some(vbyte(e, r, i)) by {
+        let j = apos(e, n, i);
+        assert(apos(e, n, j) == i);
+        assert(r.le_bytes()[j] == full_at(e, c, bk, address + apos(e, n, j)).unwrap());
+    }
+}
+
+impl<V> Memory<V>
+where
+    V: Value,
+{
+//@ fn impl<V> Memory<V> :: fn load loops=1
+//@ attr #[verifier::spinoff_prover]
+//@ closure 0 |e: Error| -> (r0: Error)
+    requires forall|f: std::fmt::Formatter<'_>| #[trigger] value.fmt_req(&f),
+//@ closure 1 |e: Error| -> (r1: Error)
+    requires forall|f: std::fmt::Formatter<'_>| #[trigger] value.fmt_req(&f),
+//@ closure 2 |e: Error| -> (r2: Error)
+//@ spec
+    requires
+        self.pre_load(address, bits as nat / 8),
+        bits as nat <= MAX_BITS(),   // width bound under which unit C04 proves il::Constant
+    ensures
+        /*@err*/ (bits == 0 || bits % 8 != 0) ==> r is Err,
+        /*@value*/ (bits != 0 && bits % 8 == 0 && all_present(self.endian, self.cells(), self.bk(), address, bits as nat / 8)) ==>
+            (r matches Ok(Some(v)) && val_ok(v) && v.vbits() == bits as nat && reads(self.endian, self.cells(), self.bk(), address, v)),
+        /*@absent*/ (bits != 0 && bits % 8 == 0 && !all_present(self.endian, self.cells(), self.bk(), address, bits as nat / 8)) ==>
+            r matches Ok(None),
+    decreases bits,
+//@ enter
+    broadcast use rc_cow::axiom_ref_debug;
+    let ghost ge = self.endian;
+    let ghost gc = self.cells();
+    let ghost gbk = self.bk();
+    let ghost gn = bits as int / 8;
+    let ghost mut g_b: u64 = 0;
+    let ghost mut g_t: Option<V> = None;
+//@ before 0 `let load_value = if let Some(cell) = self.load_cell(address)`
+    proof {
+        assert(inv_val(gc, address));
+        assert(inv_ref(gc, address));
+        if gc.contains_key(address) && gc[address] is Backref {
+            assert(inv_val(gc, gc[address]->Backref_0));
+        }
+    }
+//@ before 0 `let value = match self.endian`
+    proof {
+        g_b = backref_address;
+        value.lemma_debug_law();
+        value.lemma_value_laws();
+    }
+    let ghost bv = *value;
+//@ before 0 `if value.bits() > bits`
+    proof {
+        // `value` is now the part of the referenced value `bv` from `address` to its end, or the first gn bytes of that part
+        value.lemma_value_laws();
+        let off = address - g_b;
+        let k = match ge { Endian::Little => off, Endian::Big => vlen(bv) - off - vlen(value) };
+        assert forall|j: int| 0 <= j < vlen(value) implies #[trigger] value.le_bytes()[j] == bv.le_bytes()[j + k] by {}
+        lemma_window(ge, bv, value, off, k);
+        g_t = Some(value);
+    }
+//@ before 0 `if load_value.bits() == bits`
+    proof {
+        if gc.contains_key(address) {
+            match gc[address] {
+                MemoryCell::Value(v) => {
+                    v.lemma_value_laws();
+                    if v.vbits() <= bits {
+                        V::lemma_clone_law(v, load_value);
+                    }
+                    let k = match ge { Endian::Little => 0int, Endian::Big => vlen(v) - vlen(load_value) };
+                    assert forall|j: int| 0 <= j < vlen(load_value) implies #[trigger] load_value.le_bytes()[j] == v.le_bytes()[j + k] by {}
+                    lemma_window(ge, v, load_value, 0, k);
+                    lemma_window_reads(ge, gc, gbk, address, address, load_value);
+                },
+                MemoryCell::Backref(b) => {
+                    let t = g_t->Some_0;
+                    let v = val_at(gc, b);
+                    assert(g_b == b && window(ge, v, t, address - b));
+                    if t.vbits() > bits {
+                        // only on the little-endian path: the low bytes are the first bytes in address order
+                        assert(ge is Little);
+                        assert forall|i: int| 0 <= i < vlen(load_value) implies #[trigger] vbyte(ge, load_value, i) == vbyte(ge, v, address - b + i) by {
+                            assert(vbyte(ge, t, i) == vbyte(ge, v, address - b + i));
+                        }
+                    }
+                    assert(window(ge, v, load_value, address - b));
+                    lemma_window_reads(ge, gc, gbk, b, address, load_value);
+                },
+            }
+        } else {
+            lemma_backing_reads(ge, gc, gbk, address, load_value, bk_at(gbk, address as int)->Some_0);
+        }
+        load_value.lemma_value_laws();
+        assert(val_ok(load_value) && load_value.vbits() <= bits && reads(ge, gc, gbk, address, load_value));
+        if load_value.vbits() == bits {
+            assert forall|i: int| 0 <= i < gn implies (#[trigger] full_at(ge, gc, gbk, address + i)) is Some by {
+                assert(full_at(ge, gc, gbk, address + i) == Some(vbyte(ge, load_value, i)));
+            }
+        }
+    }
+//@ before 0 `match self.load_backing(address) {`
+    proof {
+        if bk_at(gbk, address as int) is None { assert(full_at(ge, gc, gbk, address + 0) is None); }
+    }
+//@ loop 0
+    invariant
+        /*@ctx*/ self.pre_load(address, bits as nat / 8) && ge == self.endian && gc == self.cells() && gbk == self.bk() && gn == bits as int / 8
+            && bytes == gn && bits % 8 == 0 && 16 <= bits && bits as nat <= MAX_BITS(),
+        /*@present*/ forall|i: int| 0 <= i < offset ==> (#[trigger] full_at(ge, gc, gbk, address + i)) is Some,
+        /*@acc*/ offset == 0 ==> result is None,
+        /*@acc2*/ offset > 0 ==> (result matches Some(r) && r.vwf() && r.vbits() == bits as nat && acc(ge, gc, gbk, address, gn, r, offset as int)),
+//@ before 0 `let value = match self.load(address + offset, 8)?`
+    proof {
+        if offset > 0 {
+            assert(full_at(ge, gc, gbk, address + (offset - 1)) is Some);
+            lemma_present_below_max(ge, gc, gbk, address + (offset - 1));
+        }
+        assert(cells_cov_on(gc, (address + offset) as int, address + offset + 1));
+    }
+//@ before 0 `let value = value.zext(bits)?;`
+    let ghost g_b8 = value;
+    proof {
+        if !all_present(ge, gc, gbk, (address + offset) as u64, 1) {
+            // the recursive load said None and so did the backing: unreachable
+            assert(full_at(ge, gc, gbk, (address + offset) as u64 + 0) is None);
+        }
+        assert(reads(ge, gc, gbk, (address + offset) as u64, value));
+    }
+//@ before 0 `let shift = match self.endian`
+    let ghost g_z = value;
+//@ before 0 `result = match result`
+    let ghost g_s = value;
+    let ghost old_result = result;
+//@ after 0 `None => Some(value), };`
+    proof {
+        lemma_acc_step(ge, gc, gbk, address, gn, offset as int, old_result, g_b8, g_z, g_s, result->Some_0);
+        assert(full_at(ge, gc, gbk, (address + offset) as u64 + 0) is Some);
+    }
+//@ before 0 `Ok(result)`
+    proof {
+        lemma_acc_done(ge, gc, gbk, address, gn, result->Some_0);
+    }
+//@ end
+}
